@@ -296,10 +296,20 @@ class Model:
             return self.lookup(scope, v[1])
         if v[0] == "call":
             return self.call_def(v[1], [], {}, scope)
-        if v[0] == "mix":
-            return v[1] + str(self.lookup(scope, v[2])) + v[3]
-        if v[0] == "mix2":
-            return v[1] + str(self.lookup(scope, v[2])) + v[3] + str(self.lookup(scope, v[4])) + v[5]
+        if v[0] in ("mix", "mix2"):
+            # literal parts and ${} values are joined with `+` in the order written; empty literal parts do not exist,
+            # so a value standing alone keeps its type and str + non-str is Python's TypeError
+            parts = []
+            for j, piece in enumerate(v[1:]):
+                if j % 2 == 0:
+                    if piece:
+                        parts.append(piece)
+                else:
+                    parts.append(self.lookup(scope, piece))
+            acc = parts[0]
+            for piece in parts[1:]:
+                acc = acc + piece
+            return acc
         if v[0] == "rf":
             if self.context.get("armed"):
                 self.events.add("raised")
